@@ -114,13 +114,18 @@ class KernelInterpolation(darsia.Model):
             len(self.values) == self.num_supports
         ), f"Input data not compatible: {len(self.values)} != {self.num_supports}."
 
-        # Reduce to unique supports for unique solvability
-        self.supports, indices, counts = np.unique(
-            np.round(self.supports, decimals=5),
+        # Reduce to unique supports for unique solvability - keep the order of the input
+        # such that values provided later (in the order of the input supports) remain
+        # compatible with the supports.
+        rounded_supports = np.round(self.supports, decimals=5)
+        _, indices, counts = np.unique(
+            rounded_supports,
             return_index=True,
             return_counts=True,
             axis=0,
         )
+        indices = np.sort(indices)
+        self.supports = rounded_supports[indices]
         # Warn the user that some supports were removed
         if not np.allclose(counts, 1):
             warn(
